@@ -2,6 +2,7 @@ package main
 
 import (
 	"fmt"
+	"go/types"
 	"sort"
 	"strings"
 
@@ -41,7 +42,7 @@ func init() {
 	register("C08", func(c *Ctx) {
 		p := c.P
 		c.Explain = "The question asked of the chain is the right one for every block-identifier kind, in all three served RPC versions, decided on SSA with must-hold DNF: (resolver-siblings) in every function that dispatches on BlockID predicates, head accessors are reached only under IsLatest, by-hash accessors only under IsHash, by-number accessors only under IsNumber / IsL1Accepted (with the number from l1AcceptedBlockNumber) / the default arm after all other kinds were excluded; (blockid-exhaustive) each resolver distinguishes every kind its version has; " +
-			"(not-found) resolvers classify db.ErrKeyNotFound / ErrPreConfirmedNotFound before wrapping an error as internal; (finality) isL1Verified is l1 ≠ {} ∧ l1.BlockNumber ≥ n and l1_accepted resolves to min(L1 head, height) in every version; (tx-exhaustive) type switches over core.Transaction / core.ClassDefinition in rpc and adapters cover every implementation; (tables) method tables of the three versions agree on parameter names unless listed. " +
+			"(not-found) resolvers classify db.ErrKeyNotFound / ErrPreConfirmedNotFound before wrapping an error as internal; (finality) isL1Verified is l1 ≠ {} ∧ l1.BlockNumber ≥ n and l1_accepted resolves to min(L1 head, height) in every version; (tx-exhaustive) type switches over core.Transaction / core.ClassDefinition in rpc and adapters cover every implementation; (tables) method tables of the three versions agree on parameter names unless listed; (cache-coherence) every cache-typed field of the chain object and its state backends is invalidated by RevertHead. " +
 			"Not decided: JSON shaping, values returned, behaviour after reverts (data), version agreement of payloads."
 		nres := 0
 		for _, ver := range []string{"rpc/v8", "rpc/v9", "rpc/v10"} {
@@ -226,6 +227,7 @@ func init() {
 		// tx-exhaustive
 		c08TypeSwitches(c)
 		txIndexEveryEntry(c, "index-every-tx")
+		c08CacheCoherence(c)
 		c.needFixture("index-every-tx")
 		// tables: cross-version parameter agreement
 		c08Tables(c)
@@ -410,4 +412,79 @@ func txIndexEveryEntry(c *Ctx, rule string) {
 	if n < 6 {
 		c.und(rule, "tx-hash index writers", "", fmt.Sprintf("only %d Put/Delete sites on TransactionBlockNumbersAndIndicesByHashBucket found", n))
 	}
+}
+
+// c08CacheCoherence: every cache-typed field of the chain object and its state backends is invalidated by RevertHead.
+// (Answers served from a cache that survives a revert describe blocks the node no longer holds.)
+func c08CacheCoherence(c *Ctx) {
+	p := c.P
+	isCacheType := func(t types.Type) bool {
+		s := t.String()
+		if _, isMap := t.Underlying().(*types.Map); isMap {
+			return true
+		}
+		if strings.Contains(s, "Class") && !strings.Contains(s, "Block") {
+			return false // content-addressed data (class definitions by class hash) cannot go stale through a reorg
+		}
+		return strings.Contains(s, "lru.") || strings.Contains(s, "Cache") || strings.Contains(s, "sync.Map")
+	}
+	owners := []struct{ pkg, typ string }{{"blockchain", "Blockchain"}, {"blockchain/statebackend", "stateBackend"}, {"blockchain/statebackend", "deprecatedStateBackend"}, {"blockchain", "zzVerifFixtureC08Chain"}}
+	n := 0
+	for _, o := range owners {
+		t := p.lookupType(o.pkg, o.typ)
+		if t == nil {
+			if !strings.HasPrefix(o.typ, "zzVerif") {
+				c.und("cache-coherence", o.pkg+"."+o.typ, "", "type not found")
+			}
+			continue
+		}
+		st, ok := t.Underlying().(*types.Struct)
+		if !ok {
+			continue
+		}
+		rv := p.Func(o.pkg, o.typ, "RevertHead")
+		for i := 0; i < st.NumFields(); i++ {
+			f := st.Field(i)
+			if !isCacheType(f.Type()) {
+				continue
+			}
+			n++
+			construct := o.typ + "." + f.Name()
+			if rv == nil {
+				c.viol("cache-coherence", construct, p.Pos(f.Pos()), "the owner of a cache has no RevertHead method that could invalidate it")
+				continue
+			}
+			ok := false
+			for _, g := range withAnons(rv) {
+				for _, s := range sitesOf(g) {
+					nm := ""
+					if s.Callee != nil {
+						nm = s.Callee.Name()
+					} else if s.Method != nil {
+						nm = s.Method.Name()
+					} else if b, isB := s.Instr.Common().Value.(*ssa.Builtin); isB {
+						nm = b.Name()
+					}
+					switch nm {
+					case "Reset", "Purge", "Remove", "Clear", "clear", "Delete", "delete":
+					default:
+						continue
+					}
+					for _, a := range s.Args() {
+						if at := term(a); strings.HasSuffix(at, "."+f.Name()) {
+							ok = true
+						}
+					}
+					if s.Recv != nil && strings.HasSuffix(term(s.Recv), "."+f.Name()) {
+						ok = true
+					}
+				}
+			}
+			c.check(ok, "cache-coherence", construct, p.Pos(f.Pos()), "invalidated in RevertHead", "a cache held by the chain object is not invalidated when the head is reverted: entries filled before a reorg keep answering for blocks the node no longer holds (a reverted hash keeps resolving to its old height)")
+		}
+	}
+	if n < 1 {
+		c.und("cache-coherence", "chain caches", "", "no cache-typed field found (cachedFilters renamed?)")
+	}
+	c.needFixture("cache-coherence")
 }
